@@ -64,9 +64,31 @@ def main():
 
 
 
+def run_seed(prop, sid):
+    """a stored seeded change (seeded/<sid>/patch.diff, produced by an independent sub-agent for `prop`) must be reported"""
+    REPO = _repo()
+    tmp = tempfile.mkdtemp(prefix="st.")
+    try:
+        shutil.copytree(os.path.join(REPO, "hexital"), os.path.join(tmp, "hexital"), ignore=shutil.ignore_patterns("__pycache__"))
+        a = subprocess.run(["git", "apply", os.path.join(VERIF, "seeded", sid, "patch.diff")], cwd=tmp, capture_output=True, text=True)
+        if a.returncode != 0:
+            return "seed:" + sid, "skipped", "patch does not apply to the current tree", {}
+        env = dict(os.environ, HEXLINT_REPO=tmp, HEXLINT_EVIDENCE_DIR=os.path.join(tmp, "ev"))
+        c = subprocess.run([os.path.join(VERIF, "check"), prop], capture_output=True, text=True, env=env)
+        return "seed:" + sid, "ok" if c.returncode == 1 else "FAILED", "seeded-change", {prop: c.returncode}
+    finally:
+        shutil.rmtree(tmp, ignore_errors=True)
+
+
+def seeds_for(prop):
+    d = os.path.join(VERIF, "seeded")
+    return sorted(x for x in os.listdir(d) if x.startswith(prop + "-") and os.path.exists(os.path.join(d, x, "patch.diff"))) if os.path.isdir(d) else []
+
+
 def run_for_property(prop: str, workers: int = 16):
-    """run the corpus entries that name `prop`; returns list of dict(id, kind, status, exit)"""
+    """run the corpus entries that name `prop` and the stored seeded changes written for it; returns list of dict(id, kind, status, exit)"""
     todo = [e for e in CORPUS if prop in e.get("kills", []) + e.get("silent", [])]
     with ThreadPoolExecutor(workers) as ex:
         out = list(ex.map(lambda e: run_one(e, {prop}), todo))
+        out += list(ex.map(lambda sid: run_seed(prop, sid), seeds_for(prop)))
     return [{"id": i, "status": s, "kind": inf if s != "skipped" else "skipped", "exit": r.get(prop)} for i, s, inf, r in out]
